@@ -240,6 +240,15 @@ func post0134Hash(
 	stateDiff *StateDiff,
 	backend TempTrieBackend,
 ) (felt.Felt, *BlockCommitments, error) {
+	// The 0.13.4 preimage contains every gas price; a header that lacks one (e.g. a block
+	// received from the network under a newer version string than its content) cannot
+	// be hashed and must be reported, not dereferenced.
+	if b.L1GasPriceETH == nil || b.L1GasPriceSTRK == nil ||
+		b.L1DataGasPrice == nil || b.L1DataGasPrice.PriceInWei == nil || b.L1DataGasPrice.PriceInFri == nil ||
+		b.L2GasPrice == nil || b.L2GasPrice.PriceInWei == nil || b.L2GasPrice.PriceInFri == nil {
+		return felt.Felt{}, nil, errors.New("block header is missing a gas price required by its protocol version")
+	}
+
 	var txCommitment, eCommitment, rCommitment, sdCommitment felt.Felt
 	var sdLength uint64
 	var tErr, eErr, rErr error
